@@ -7,6 +7,13 @@ from vlib.ref import call_inst
 from vlib.runner import InvalidCase
 
 _EXT_CACHE: dict = {}
+# When True, arguments whose declared type is Iterable[...] are passed as one-shot iterators
+# (generators) instead of lists: the API accepts any iterable.
+ONE_SHOT = [False]
+
+
+def _it(xs):
+    return iter(list(xs)) if ONE_SHOT[0] else xs
 
 
 def bound(b):
@@ -99,7 +106,7 @@ def mk_type(t):
     if k == "option":
         return tys.Option(*mk_row(t["ts"]))
     if k == "either":
-        return tys.Either(mk_row(t["l"]), mk_row(t["r"]))
+        return tys.Either(_it(mk_row(t["l"])), _it(mk_row(t["r"])))
     if k == "fn":
         return tys.FunctionType(mk_row(t["i"]), mk_row(t["o"]), list(t.get("reqs", [])))
     if k == "var":
@@ -187,9 +194,9 @@ def mk_value(v):
     if k == "none":
         return val.None_(*mk_row(v["ts"]))
     if k == "left":
-        return val.Left(vs, mk_row(v["r"]))
+        return val.Left(_it(vs), _it(mk_row(v["r"])))
     if k == "right":
-        return val.Right(mk_row(v["l"]), vs)
+        return val.Right(_it(mk_row(v["l"])), _it(vs))
     if k == "int":
         from hugr.std.int import IntVal
 
